@@ -211,7 +211,36 @@ def gen_workspace(rng, base):
             body = "---@meta\n" + body
         files[f"main/{n}.lua"] = body
     files["lib/libdef.lua"] = "---@class LibT\n---@field z number\nLibGlobal = 1\n"
-    files["main/.emmyrc.json"] = json.dumps({"workspace": {"library": ["../lib"]}})
+    # a require cycle whose two members both (re)declare and extend the same global table (the lua pipeline's
+    # cycle tail decides which member is analysed first)
+    user = rng.pick(names)
+    files["main/cyc_a.lua"] = ("local other = require('cyc_b')\nCy = Cy or {}\nCy.from_a = 1\nfunction Cy.fa() return other end\n"
+                               "return { a = 1 }\n")
+    files["main/cyc_b.lua"] = ("local other = require('cyc_a')\nCy = Cy or {}\nCy.from_b = 's'\nfunction Cy.fb() return other end\n"
+                               "return { b = 2 }\n")
+    if rng.chance(1, 2):
+        files["main/cyc_c.lua"] = "local a = require('cyc_a')\nCy = Cy or {}\nCy.from_c = true\nlocal self_ = require('cyc_c')\nreturn { a, self_ }\n"
+    def prepend(name, text):      # before any `return`, after a `---@meta` line
+        body = files[f"main/{name}.lua"]
+        if body.startswith("---@meta\n"):
+            files[f"main/{name}.lua"] = "---@meta\n" + text + body[len("---@meta\n"):]
+        else:
+            files[f"main/{name}.lua"] = text + body
+    prepend(user, "---@type boolean\nlocal xcy = Cy\nprint(xcy, Cy.from_a, Cy.from_b, Cy.nofield)\n---@param n integer\nlocal function fcy(n) return n end\nfcy(Cy)\n")
+    # two (or three) library workspaces with interacting definitions (context order = library workspace id)
+    files["lib1/la.lua"] = ("LibTab = LibTab or {}\nLibTab.one = 1\n---@class (partial) LibC\n---@field p1 number\n"
+                            "---@type string\nLG = 's'\nreturn {}\n")
+    files["lib2/lb.lua"] = ("LibTab = LibTab or {}\nLibTab.two = 'x'\nfunction LibTab.m2() end\n---@class (partial) LibC\n---@field p2 string\n"
+                            "---@type integer\nLG = 1\nlocal la = require('la')\nreturn { la }\n")
+    libs = ["../lib", "../lib1", "../lib2"]
+    if rng.chance(1, 2):
+        files["lib3/lc.lua"] = "LibTab = LibTab or {}\nLibTab.three = true\n---@type boolean\nLG = true\n"
+        libs.append("../lib3")
+    user2 = rng.pick(names)
+    prepend(user2, "---@type boolean\nlocal xlt = LibTab\nprint(xlt, LibTab.one, LibTab.two, LibTab.none_)\n"
+                   "---@type boolean\nlocal xlg = LG\nprint(xlg)\n---@type LibC\nlocal lc\n---@type boolean\nlocal xp = lc.p1\nprint(xp, lc.p2, lc.p3)\n"
+                   "---@param n integer\nlocal function flt(n) return n end\nflt(LibTab)\nflt(LG)\n")
+    files["main/.emmyrc.json"] = json.dumps({"workspace": {"library": rng.shuffle(libs)}})
     write_tree(base, files)
     return {"files": files}
 
@@ -258,7 +287,8 @@ def part_c(rep, rng, nws, nruns):
             runs.append((None, canon_report(list(ref.items()), main)))
         ndiag = sum(len(v) for _, v in runs[0][1]) if runs else 0
         rep.count("proc.workspaces"); rep.count("proc.diagnostics_per_run", ndiag)
-        rep.count("proc.files", len(spec["files"]) - 2)
+        rep.count("proc.files", sum(1 for f in spec["files"] if f.startswith("main/") and f.endswith(".lua")))
+        rep.count("proc.library_roots", len({f.split("/")[0] for f in spec["files"] if f.startswith("lib")}))
         if ndiag > 0:
             rep.nontrivial(["C", spec["files"]])
         distinct = []
